@@ -166,6 +166,76 @@ def gen_model(rng):
     return {'src': src, 'pool': pool, 'reals': reals, 'cplx': cplx, 'consts': consts, 'results': results,
             'used': sorted(used), 'partial': sorted(partial)}
 
+def gen_restored_model(rng):
+    """several SESSIONS: 1-3 earlier sessions (context ids smaller AND larger than the reporting session's id 7) declare inputs and
+    real / complex intermediate results and archive them (JSON, XML or pickle string); the reporting session restores them,
+    declares further intermediates of its own and y = result(f(restored, new)) (sometimes undeclared).  So the keys of y's
+    intermediate vector are NOT in creation order: y's own node sits in the middle, restored nodes sort before and after it."""
+    src = []; reals = []; cplx = []; results = []
+    others = rng.sample([2, 5, 2000, 3000, 90000], rng.randint(1, 3))
+    if all(c > 7 for c in others) and rng.random() < 0.5: others[0] = rng.choice([2, 5])
+    rest_real = []; rest_cplx = []; loads = []
+    for si, cid in enumerate(others):
+        src.append('context._context = context.Context(id=%d)' % cid)
+        xs = []
+        for j in range(rng.randint(1, 2)):
+            v = 'a%d_%d' % (si, j)
+            src.append('%s = ureal(%r, %r, label=%s%s)' % (v, round(rng.uniform(-3, 3), 3) or 1.0, rng.choice(UVALS), rng.choice(["'%s'" % v, 'None']),
+                                                         rng.choice(['', ', independent=False', ', df=6'])))
+            xs.append(v)
+        zs = []
+        if rng.random() < 0.5:
+            v = 'q%d' % si
+            src.append('%s = ucomplex(%r, %s, label=%s)' % (v, complex(round(rng.uniform(-2, 2), 2), round(rng.uniform(-2, 2), 2)),
+                                                          rng.choice(['0.5', '(1.0, 0.25)', '(0.3, 0.0)']), rng.choice(["'%s'" % v, 'None'])))
+            zs.append(v)
+        names = list(xs) + list(zs)
+        for j in range(rng.randint(1, 3)):
+            v = 'w%d_%d' % (si, j)
+            a, b = rng.choice(xs), rng.choice(xs)
+            if zs and rng.random() < 0.45:
+                e = rng.choice(['%s*%s' % (zs[0], a), '2.0*%s' % zs[0], '%s*(1+2j) + %s' % (a, zs[0]), '%s*1j + %s' % (a, b)]); rest_cplx.append(v)
+            else:
+                e = rng.choice(['2.0*%s + 1' % a, '%s*%s' % (a, b), '%s - 0.5*%s' % (a, b), 'sin(%s)' % a] + (['magnitude(%s)' % zs[0]] if zs else [])); rest_real.append(v)
+            src.append('%s = result(%s%s)' % (v, e, rng.choice(['', ", label='%s'" % v, ", label='%s'" % rng.choice(LABELS)])))
+            names.append(v)
+        fmt = rng.choice(['json', 'json', 'xml', 'pickle'])
+        d, l = {'json': ('dumps_json', 'loads_json'), 'xml': ('dumps_xml', 'loads_xml'), 'pickle': ('dumps', 'loads')}[fmt]
+        src.append('_ar = persistence.Archive(); _ar.add(%s); _s%d = persistence.%s(_ar)' % (', '.join('%s=%s' % (n, n) for n in names), si, d))
+        loads.append('_ar = persistence.%s(_s%d); %s = [_ar.extract(n) for n in %r]' % (l, si, ', '.join(names) + (',' if len(names) == 1 else ''), names))
+        reals += xs; cplx += zs
+    src.append('context._context = context.Context(id=7)')
+    src += loads
+    for j in range(rng.randint(1, 2)):
+        v = 'x%d' % (j + 1); src.append('%s = ureal(%r, %r, label=%s)' % (v, round(rng.uniform(-3, 3), 3) or 1.0, rng.choice(UVALS), rng.choice(["'%s'" % v, 'None']))); reals.append(v)
+    own = []
+    for j in range(rng.randint(0, 2)):
+        v = 'r%d' % (j + 1)
+        e = '%s*%s + %s' % (rng.choice(rest_real + reals), rng.choice(reals), rng.choice(rest_real + reals))
+        if rest_cplx and rng.random() < 0.4: e = '%s*%s' % (rng.choice(rest_cplx), rng.choice(reals))
+        src.append('%s = result(%s%s)' % (v, e, rng.choice(['', ", label='%s'" % v]))); own.append(v)
+    ycomplex = bool(rest_cplx) and rng.random() < 0.5
+    terms = []
+    for v in rest_real + rest_cplx + own:
+        if rng.random() < 0.8:
+            terms.append(rng.choice(['%s', '2.0*%s', '%s*' + rng.choice(reals)]).replace('%s', v))
+    if not terms: terms.append((rest_real + rest_cplx)[0])
+    terms.append(rng.choice(reals))
+    rng.shuffle(terms)
+    if ycomplex: terms.append('1j*%s' % rng.choice(reals))
+    src.append('y = ' + ' + '.join(terms))
+    if not ycomplex: src.append('y = magnitude(y) if not hasattr(y, "_node") else y')
+    if rng.random() < 0.8: src.append('y = result(y%s)' % rng.choice(['', ", label='Y'"]))
+    if rng.random() < 0.4:                     # a later intermediate that y does not depend on (larger counter than y's node)
+        src.append('r9 = result(%s*2.0)' % rng.choice(reals)); own.append('r9')
+    results = rest_real + rest_cplx + own
+    return {'src': src, 'pool': reals + cplx + results, 'reals': reals, 'cplx': cplx, 'consts': [], 'results': results, 'used': [], 'partial': [],
+            'restored': True}
+
+RESTORED_KW = [{'intermediate': 'True', 'trim': '0'}, {'intermediate': 'True'}, {'intermediate': 'True', 'trim': '0', 'key': 'None'},
+               {'intermediate': 'True', 'trim': '0.3', 'reverse': 'False'}, {'intermediate': 'True', 'max_number': '2', 'trim': '0'},
+               {'intermediate': 'True', 'trim': '0', 'key': "'label'"}]
+
 def gen_calls(rng, m, ncalls):
     """a list of calls: (fn, kwargs-as-source-dict)"""
     calls = []
@@ -293,7 +363,7 @@ def copts(infl_txt, kw):
 def run_src(src, ctx=7):
     new_context(ctx)
     ns = {}
-    exec('from GTC import *\nfrom GTC import reporting\ninf = float("inf")\n' + '\n'.join(src), ns)
+    exec('from GTC import *\nfrom GTC import reporting, context, persistence\ninf = float("inf")\n' + '\n'.join(src), ns)
     return ns
 
 def call_src(fn, kw, target='y'):
@@ -463,8 +533,12 @@ def correspondence(rng, tier):
     tries = 0
     while len(terms) < nmodels and tries < nmodels * 3:
         tries += 1
-        m = gen_model(rng)
-        calls = gen_calls(rng, m, ncalls)
+        restored = (tries % 6 == 0)
+        m = gen_restored_model(rng) if restored else gen_model(rng)
+        calls = gen_calls(rng, m, ncalls - 6 if restored else ncalls)
+        if restored:
+            calls = [('budget', dict(k)) for k in RESTORED_KW[:3]] + [(rng.choice(['budget', 'components']), dict(k)) for k in RESTORED_KW] + calls
+            dist['restored_sessions'] = dist.get('restored_sessions', 0) + 1
         try:
             term, obs, run, changes, nwatched, info = case_term(m, calls, rng)
         except Exception as ex:
@@ -520,6 +594,9 @@ def correspondence(rng, tier):
             'rule': 'random models (1-6 declarations of independent/dependent/ensemble reals, independent/correlated/ensemble complex, constants, '
                     'in random creation order; real or complex y; optional partial use z.real/z.imag; 0-3 declared intermediates) x 14 calls of '
                     'budget/components over the option grid (default/intermediate/influences incl. malformed, trim, max_number, key, reverse), '
+                    'every 6th model spans SEVERAL SESSIONS: intermediates (real and complex) declared and archived (JSON/XML/pickle) under '
+                    'context ids smaller and larger than the reporting session, restored, mixed with new intermediates, y declared in the '
+                    'middle of its uid-ordered intermediate vector, intermediate=True reports first; '
                     'reporting.u_component(target, influence) for influences as the user holds them (reals, complex numbers themselves, their '
                     'parts, constants, intermediates) against Budget.u_component_any; '
                     'followed for a complex y by real reports of y.real, y.imag and magnitude(y) (evaluated after the complex reports) and the '
@@ -908,7 +985,7 @@ def search(rng, tier, broken):
     n = 400 if tier == 'quick' else 6000
     for i in range(n):
         transp = (i % 5 == 4)
-        m = gen_transparency_model(rng) if transp else gen_model(rng)
+        m = gen_transparency_model(rng) if transp else gen_restored_model(rng) if i % 5 == 3 else gen_model(rng)
         try:
             ns = run_src(m['src'])
         except Exception:
